@@ -22,6 +22,13 @@ def fam_blackhole_idle(rng, i):
     d = rng.choice([0, 1, 2])
     end = 100000000 if rng.random() < 0.8 else start + rng.choice([200, 1500])
     p["bh"] = f"{start}:{end}:{d}"
+    # one third of the scenarios have a pure receiver (it only sends ACKs / MAX_* updates): its last idle-timer
+    # restart is a processed packet, not a transmission
+    shape = i % 3
+    if shape == 1:
+        p.update({"bidi": 0, "uni": rng.choice([1, 2]), "suni": 0, "size": rng.choice([120000, 400000])})
+    elif shape == 2:
+        p.update({"bidi": 0, "uni": 0, "suni": rng.choice([1, 2]), "size": rng.choice([120000, 400000])})
     return e2e_props._nz(p)
 
 
